@@ -456,8 +456,16 @@ pub fn sequence_c09(a: &Args, rep: &mut Report) {
                 }
                 calls += 7;
             }
-            // (b) per cell, a random walk over {evaluate, clone, with_faces, discard_faces}
+            // (b) per cell, a random walk over {evaluate, clone, with_faces, discard_faces}; between the steps the cell with the
+            // same index of ANOTHER tessellation (same box, same number of generators, other positions) is converted,
+            // evaluated and discarded now and then - what is done to one object must not show in another one
             {
+                let mut other = c.clone();
+                other.pts = (0..n).map(|_| c.anchor + c.width * DVec3::new(r.f(), r.f(), r.f())).collect();
+                other.mask = None;
+                let vo = if other.validity().is_ok() { Some(build_integrator(&other)) } else { None };
+                let allmask = vec![true; n];
+                let fresh_other: Vec<Option<u64>> = (0..n).map(|i| vo.as_ref().and_then(|v| v.get_cell_at(i)).map(|x| cell_digest(&x.clone().with_faces(), &allmask))).collect();
                 let vi = build_integrator(&c);
                 let picks: Vec<usize> = (0..n).filter(|&i| vi.get_cell_at(i).is_some()).collect();
                 for &i in picks.iter().take(40) {
@@ -467,6 +475,18 @@ pub fn sequence_c09(a: &Args, rep: &mut Report) {
                     let mut w: Option<meshless_voronoi::ConvexCell<meshless_voronoi::WithFaces>> = None;
                     let mut trail = String::new();
                     for _ in 0..(3 + r.below(6)) {
+                        if let (Some(v), true) = (vo.as_ref(), r.below(2) == 0) {
+                            if let Some(x) = v.get_cell_at(i) {
+                                trail.push('o');
+                                let y = x.clone().with_faces();
+                                calls += 1;
+                                if Some(cell_digest(&y, &allmask)) != fresh_other[i] {
+                                    bad.push(format!("cell {i} of a SECOND tessellation: its integrals with faces, evaluated between the steps `{trail}` on cell {i} of the first one (o = this evaluation), differ from those of a fresh cell"));
+                                    break;
+                                }
+                                let _ = y.discard_faces();
+                            }
+                        }
                         match r.below(4) {
                             0 => {
                                 // evaluate in the present state
@@ -478,7 +498,7 @@ pub fn sequence_c09(a: &Args, rep: &mut Report) {
                                 trail.push('E');
                                 calls += 1;
                                 if got != want {
-                                    bad.push(format!("cell {i}: after the call sequence `{trail}` (E evaluate, C clone, W with_faces, D discard_faces) the integrals differ from those of a fresh cell in the same state"));
+                                    bad.push(format!("cell {i}: after the call sequence `{trail}` (E evaluate, C clone, W with_faces, D discard_faces, o = with_faces / evaluate / discard_faces on the cell with the same index of another tessellation) the integrals differ from those of a fresh cell in the same state"));
                                     break;
                                 }
                             }
